@@ -1,4 +1,5 @@
 import GoRes.Model.SendReq
+import GoRes.Model.Codec
 import GoRes.Driver.Wire
 /-! Driver for the `sendreq` domain (C19).
 `send MARSHAL SUBSCRIBE PUBLISH TIMEOUT n t1 msg1 … tn msgn` (times in ms, ascending). -/
@@ -37,8 +38,46 @@ def specOutcome (timeout : Int) (hist : List (Int × Str)) : Outcome × List Int
         | .ignored => go fuel deadline exts rest
   go (hist.length + 1) timeout [] hist
 
+/-- what the client sees of a returned message: `ParseResponse` (Model/Codec) of the bytes -/
+def encClass : Outcome → String
+  | .internalError => "error:system.internalError"
+  | .timeout => "timeout"
+  | .response d => match Codec.parseResponse (Json.parse d) with
+    | .result raw => "result:" ++ Str.show raw
+    | .error c => "error:" ++ Str.show c
+    | .resource rid => "resource:" ++ Str.show rid
+
+/-- the scenarios against a real service over the embedded NATS server: the setup and the inbox
+history each one produces (coarse times, ms) -/
+def natScenario (name : String) : Option (List (Setup × List (Int × Str)) × Nat) :=
+  let ok : Setup × List (Int × Str) := (⟨true, true, true, 1000⟩, [(5, str "{\"result\":{\"v\":1}}")])
+  let silent (to : Int) : Setup × List (Int × Str) := (⟨true, true, true, to⟩, [])
+  let pubfail : Setup × List (Int × Str) := (⟨true, true, false, 1000⟩, [])
+  match name with
+  | "resp" => some ([ok], 1)
+  | "pre" => some ([(⟨true, true, true, 150⟩, [(5, str "timeout:\"600\""), (255, str "{\"result\":{\"v\":2}}")])], 1)
+  | "silent" => some ([silent 100], 1)
+  | "slow" => some ([(⟨true, true, true, 100⟩, [(300, str "{\"result\":null}")])], 1)
+  | "pubfail" => some ([pubfail], 1)
+  | "many" => some ((List.replicate 14 [ok, silent 5, pubfail]).flatten, 3)
+  | _ => none
+
+def runNat (name : String) : String × String × String :=
+  match natScenario name with
+  | none => ("bad-op", "-", "bad")
+  | some (reqs, shown) =>
+    let rs := reqs.map fun (su, h) => sendRequest su h
+    -- subscriptions left on the connection: those made and not released
+    let left := (rs.filter fun r => r.subscribed && !r.unsubscribed).length
+    let classes := (rs.take shown).map (encClass ·.outcome)
+    let head := if shown = 1 then classes.headD "" else String.join (classes.map (· ++ ","))
+    let exts := (rs.map (·.extensions)).flatten
+    let out := head ++ " ext=[" ++ ",".intercalate (exts.map toString) ++ "] subs=" ++ toString left
+    (out, out, "nat-" ++ name)
+
 def run (args : List Str) : String × String × String :=
   match args with
+  | [c, name] => if c = str "natsend" then runNat (Str.show name) else ("bad-op", "-", "bad")
   | c :: ma :: su :: pu :: to :: _n :: rest =>
     if c ≠ str "send" then ("bad-op", "-", "bad") else
     let setup : Setup := ⟨ma = str "T", su = str "T", pu = str "T", int to⟩
